@@ -8,7 +8,7 @@
        create_timed_transitions is empty, so an idle machine with a non-empty ordered pre-buffer does not exist. *)
 From Coq Require Import List ZArith Bool Arith Lia.
 From JSL Require Import Base.Res Base.ListX SM.Types SM.Util SM.Handler SM.Step SM.Middleware SM.Inv SM.Events
-  SMP.ListLemmas SMP.Frame SMP.WF SMP.Preserve SMP.Post SMP.PostApply SMP.FeasView SMP.Feasible SMP.Offers SMP.Unique SMP.Reflect
+  SMP.ListLemmas SMP.Frame SMP.WF SMP.Preserve SMP.StepInv SMP.Clock SMP.ClockStep SMP.ClockMain SMP.LiftSide SMP.OutputDone SMP.Post SMP.PostApply SMP.FeasView SMP.Feasible SMP.Offers SMP.Unique SMP.Reflect
   SMP.DepLists SMP.Prov SMP.StoreEff SMP.LiftProv SMP.ProvBatch SMP.Claims SMP.Durations SMP.Travel SMP.Hold SMP.Deliver SMP.OffersValid SMP.NoFail.
 Import ListNotations.
 Close Scope Z_scope.
@@ -88,6 +88,151 @@ Proof.
   assert (Hty : bc_type c = Flex).
   { unfold get_next_job_from_buffer in En. rewrite Est in En. destruct (bc_type c); try discriminate; reflexivity. }
   exists ms, c. split; auto. split; auto. split; auto. rewrite Hty, Est. unfold at_release_position. apply mem_nat_In. exact Hinb.
+Qed.
+
+
+(* ---------- composed over whole runs: every IDLE -> SETUP of every decision's micro-log ---------- *)
+Hypothesis Hnn : inst_nonneg_b i = true.
+
+Definition rel_fact (x : state) (tr : transition) : Prop :=
+  forall m j, tr_comp tr = CM m -> tr_new tr = NM MSetup -> tr_job tr = Some j ->
+  exists ms c, nth_error (s_machs x) m = Some ms /\ get_bcfg i (BPre m) = Some c
+               /\ at_release_position j (b_store (m_pre ms)) (bc_type c) = true.
+
+(* the machines' transitions come first *)
+Definition mach_first (R : list transition) : Prop :=
+  exists A B, R = A ++ B /\ (forall tr, In tr A -> exists m, tr_comp tr = CM m) /\ (forall tr, In tr B -> exists t, tr_comp tr = CT t).
+
+Lemma mach_first_tail tr0 R : mach_first (tr0 :: R) ->
+  mach_first R /\ ((exists t, tr_comp tr0 = CT t) -> forall tr, In tr R -> exists t, tr_comp tr = CT t).
+Proof.
+  intros [A [B [E [HA HB]]]]. destruct A as [|a A'].
+  - simpl in E. subst B. split.
+    + exists [], R. split; [reflexivity|]. split; [intros tr []|]. intros tr Hin. apply HB. right; auto.
+    + intros _ tr Hin. apply HB. right; auto.
+  - simpl in E. inversion E; subst a R. split.
+    + exists A', B. split; [reflexivity|]. split; auto. intros tr Hin. apply HA. right; auto.
+    + intros [t Ht]. destruct (HA tr0 (or_introl eq_refl)) as [m Hm]. congruence.
+Qed.
+
+Definition Q9 (R : list transition) (x : state) : Prop := Q8 R x /\ mach_first R /\ forall tr, In tr R -> rel_fact x tr.
+
+Theorem J9_apply x tr R x' :
+  NO x -> J8 i x -> Q9 (tr :: R) x -> is_transition_valid x tr = Ok true -> apply_transition sigma i x tr = Ok x' ->
+  J8 i x' /\ Q9 R x' /\ side2 tr x' = true.
+Proof.
+  intros N Hj [HQ8 [HM HR]] Hv Ha. destruct (J8_apply sigma i Hnn _ _ _ _ N Hj HQ8 Hv Ha) as [Hj' [HQ8' S]].
+  split; auto. split; [|exact S]. destruct (mach_first_tail _ _ HM) as [HM' Htail]. split; auto. split; auto.
+  intros tr1 Hin m j Hc1 Hn1 Hj1. destruct (HR tr1 (or_intror Hin) m j Hc1 Hn1 Hj1) as [ms [c [Hms [Hc Hrel]]]].
+  destruct (tr_comp tr) as [m0|t0|n0] eqn:Hc0.
+  - (* another machine: the pre-buffer stays *)
+    assert (Hne : m0 <> m).
+    { intros ->. destruct HQ8 as [[ND _] _].
+      assert (Ew1 : is_tworking tr1 = false) by (unfold is_tworking; rewrite Hn1; reflexivity).
+      assert (Ew0 : is_tworking tr = false).
+      { unfold is_tworking. destruct (tr_new tr) as [s0|s0] eqn:En0; [reflexivity|].
+        destruct (nth_error (s_machs x) m) as [ms0|] eqn:Hms0; [|unfold apply_transition in Ha; rewrite Hc0, Hms0 in Ha; discriminate].
+        destruct (apply_machine sigma i _ _ _ _ _ Hc0 Hms0 Ha) as [[_ [E _]]|[[_ [E _]]|[[_ [E _]]|[_ [E _]]]]]; rewrite En0 in E; discriminate. }
+      rewrite core_cons, Ew0 in ND. simpl in ND. inversion ND as [|? ? Hnin _]. apply Hnin.
+      rewrite Hc0, <- Hc1. apply in_map. apply in_core; auto. }
+    pose proof (other_machine_leaves_pre_buffer x tr x' m0 m Ha Hc0 Hne) as Hb. unfold bst in Hb. simpl in Hb.
+    rewrite Hms in Hb. simpl in Hb. destruct (nth_error (s_machs x') m) as [ms'|] eqn:Hms'; [|discriminate]. simpl in Hb.
+    inversion Hb as [Hst]. exists ms', c. rewrite Hst. auto.
+  - exfalso. destruct (Htail ltac:(eauto) tr1 Hin) as [t Ht]. congruence.
+  - unfold apply_transition in Ha. rewrite Hc0 in Ha. destruct (nth_error (s_bufs x) n0); discriminate.
+Qed.
+
+Lemma E9_end x : J8 i x -> Q9 [] x -> BI x.
+Proof. intros Hj [HQ _]. eapply E8_end; eauto. Qed.
+
+Lemma Q9_created x timed tele :
+  J8 i x -> Q8 (timed ++ tele) x -> create_timed_transitions i x = Ok timed -> (forall tr, In tr tele -> exists t, tr_comp tr = CT t) ->
+  Q9 (timed ++ tele) x.
+Proof.
+  intros Hj HQ8 Ht Htele. pose proof Hj as [[HJ _] _]. split; auto.
+  unfold create_timed_transitions in Ht.
+  destruct (create_timed_machine_transitions i x) as [a|] eqn:Ea; simpl in Ht; [|discriminate].
+  destruct (create_timed_transport_transitions i x) as [b|] eqn:Eb; simpl in Ht; [|discriminate].
+  inversion Ht; subst; clear Ht.
+  destruct (timed_machines_comps i _ _ _ _ Ea) as [A1 _].
+  split.
+  - exists a, (b ++ tele). split; [rewrite app_assoc; reflexivity|]. split.
+    + intros tr Hin. destruct (A1 _ Hin) as [[k [Hk _]] _]. eauto.
+    + intros tr Hin. apply in_app_iff in Hin. destruct Hin as [Hin|Hin]; [eapply timed_transport_comp; eauto|auto].
+  - intros tr Hin m j Hc Hn Hjb. apply in_app_iff in Hin. destruct Hin as [Hin|Hin]; [apply in_app_iff in Hin; destruct Hin as [Hin|Hin]|].
+    + destruct (timed_machines_in i _ _ _ _ _ Ea Hin) as [k [ms [Hms Htm]]]. simpl in Htm.
+      destruct (created_start_names_released_job _ _ _ _ Htm Hn) as [c [j0 [Hcfg [E Hrel]]]]. subst tr. simpl in Hc, Hjb.
+      inversion Hc; subst k. inversion Hjb; subst j0. eauto.
+    + exfalso. destruct (timed_transport_comp i x _ _ HJ Eb Hin) as [k Hk]. congruence.
+    + exfalso. destruct (Htele _ Hin) as [t Ht]. congruence.
+Qed.
+
+Lemma tele_transports x poss tele :
+  get_possible_transitions i x = Ok poss -> filter_teleport i x poss = Ok tele -> forall tr, In tr tele -> exists t, tr_comp tr = CT t.
+Proof.
+  intros Hp Hf tr Hin. pose proof (tele_tworking i _ _ _ Hp Hf) as Tw. rewrite Forall_forall in Tw. specialize (Tw _ Hin).
+  destruct (offers_shape i _ _ _ Hp (tele_sub i _ _ _ Hf _ Hin)) as [[m [j ->]]|[t [j ->]]]; [discriminate|simpl; eauto].
+Qed.
+
+Lemma Q9_timed x timed poss tele : NO x -> J8 i x -> BI x -> create_timed_transitions i x = Ok timed ->
+  get_possible_transitions i x = Ok poss -> filter_teleport i x poss = Ok tele -> Q9 (timed ++ tele) x.
+Proof.
+  intros N Hj Hb Ht Hp Hf. apply Q9_created; auto; [eapply Q8_timed; eauto|eapply tele_transports; eauto].
+Qed.
+
+Lemma Q9_timed0 x timed : NO x -> J8 i x -> BI x -> create_timed_transitions i x = Ok timed -> Q9 timed x.
+Proof.
+  intros N Hj Hb Ht. rewrite <- (app_nil_r timed). apply Q9_created; auto; [rewrite app_nil_r; eapply Q8_timed0; eauto|intros tr []].
+Qed.
+
+Lemma Q9_offer x o : J8 i x -> BI x -> create_timed_transitions i x = Ok [] -> OK9 i x o -> Q9 [o] x.
+Proof.
+  intros Hj Hb Hct Ho. pose proof Hj as [[[W [[F _] _]] _] _]. pose proof Ho as [H8 [full [Hfull Hin]]].
+  split; [eapply Q8_offer; eauto|]. split.
+  - destruct (offers_shape i _ _ _ Hfull Hin) as [[m [j E]]|[t [j E]]]; subst o.
+    + exists [mkTr (CM m) (NM MSetup) (Some j)], []. split; [reflexivity|]. split; [intros tr [<-|[]]; simpl; eauto|intros tr []].
+    + exists [], [mkTr (CT t) (NT TWorking) (Some j)]. split; [reflexivity|]. split; [intros tr []|intros tr [<-|[]]; simpl; eauto].
+  - intros tr [<-|[]] m j Hc Hn Hjb.
+    destruct (offers_shape i _ _ _ Hfull Hin) as [[m0 [j0 E]]|[t [j0 E]]]; subst o; simpl in *; [|discriminate].
+    inversion Hc; subst m0. inversion Hjb; subst j0.
+    destruct (offered_start_only_for_unordered_pre_buffer x full m j W F Hct Hfull Hin) as [ms [c [Hms [Hcfg [_ Hrel]]]]]. eauto.
+Qed.
+
+(* every IDLE -> SETUP in the micro-log takes the job at the release position of the pre-buffer, as it was in the micro-state
+   before (the state the decision was taken in, for the first entry) *)
+Fixpoint chain_release (x : state) (lg : mlog) : Prop :=
+  match lg with [] => True | (tr, y) :: r => ev_pre_release i x tr y = true /\ chain_release y r end.
+
+Lemma ev_pre_release_now x t tr y : ev_pre_release i (set_now x t) tr y = ev_pre_release i x tr y.
+Proof. reflexivity. Qed.
+
+Lemma wit_release x tr y :
+  Q9 (tr :: nil ++ nil) x \/ (exists R, Q9 (tr :: R) x) -> apply_transition sigma i x tr = Ok y -> ev_pre_release i x tr y = true.
+Proof.
+  intros HQ Ha. assert (HR : rel_fact x tr).
+  { destruct HQ as [[_ [_ H]]|[R [_ [_ H]]]]; apply H; left; reflexivity. }
+  unfold ev_pre_release. destruct (ekind_of x tr) eqn:Ek; try reflexivity.
+  unfold ekind_of in Ek. destruct (tr_comp tr) as [m|t|n] eqn:Hc; [|destruct (tr_new tr) as [s0|s0]; [discriminate|];
+    destruct (nth_error (s_trans x) t) as [ts|]; [destruct (t_st ts), s0; discriminate|discriminate]|destruct (tr_new tr); discriminate].
+  destruct (tr_new tr) as [s0|s0] eqn:Hn; [|discriminate].
+  destruct (nth_error (s_machs x) m) as [ms|] eqn:Hms; [|discriminate].
+  destruct (m_st ms) eqn:Es, s0; try discriminate.
+  destruct (apply_machine sigma i _ _ _ _ _ Hc Hms Ha) as [[_ [_ C]]|[[E _]|[[E _]|[E _]]]]; try congruence.
+  destruct (idle_setup_guard sigma i _ _ _ _ _ C) as [j [Hj _]]. rewrite Hj.
+  destruct (HR m j Hc Hn Hj) as [ms' [c [Hms' [Hcfg Hrel]]]]. rewrite Hms in Hms'. inversion Hms'; subst ms'.
+  unfold opt_b. rewrite Hcfg. exact Hrel.
+Qed.
+
+Theorem run_release_order fuel x0 joker0 ta r m a r' m' lg :
+  clock_b x0 = true -> wfs_b i x0 = true -> fresh2_b i x0 = true -> nodep_b x0 = true -> pre_ok_b x0 = true ->
+  reach sigma i fuel x0 joker0 ta r m -> mw_step sigma i fuel r m a = MOk r' m' lg -> chain_release (r_x r) lg.
+Proof.
+  intros C W Fr Dn Po H Hm. pose proof (clock_idle_unclaimed _ C) as Iu. apply NO_iff_clock_b in C.
+  pose proof (reach_micro_chain sigma i Hnn (J8 i) Q9 side2 (OK9 i) BI J9_apply (J8_now i) E9_end BI_now Q9_timed Q9_timed0 Q9_offer (offers_ok9 i)
+                _ _ _ _ _ _ _ _ _ _ C (J8_init i _ W Fr Dn Iu Po) (BI_init _ Dn) H Hm) as Hch.
+  clear -Hch. revert Hch. generalize (r_x r). induction lg as [|[tr y] rest IH]; intros x Hch; simpl in *; [exact I|].
+  destruct Hch as [[x1 [[t Ex] [_ [_ [[R HQ] [_ Ha]]]]]] Hrest]. split; [|apply IH; exact Hrest].
+  subst x1. rewrite <- (ev_pre_release_now x t). apply wit_release; eauto.
 Qed.
 
 End R.
